@@ -272,8 +272,10 @@ end View
 /-! ## independent description of the CLM layout (frozen) -/
 namespace Spec
 
-/-- 26 characters of text, Ctrl-Z, NUL padding to 32 -/
-def versionText : Bytes := asciiBytes "OP2 Clump File Version 1.0" ++ [0x1A] ++ zeros 5
+/-- "OP2 Clump File Version 1.0": 26 characters of text; then Ctrl-Z and NUL padding to 32 -/
+def versionChars : List Char :=
+  ['O', 'P', '2', ' ', 'C', 'l', 'u', 'm', 'p', ' ', 'F', 'i', 'l', 'e', ' ', 'V', 'e', 'r', 's', 'i', 'o', 'n', ' ', '1', '.', '0']
+def versionText : Bytes := versionChars.map (fun c => UInt8.ofNat c.toNat) ++ [0x1A] ++ zeros 5
 def unknownBytes : Bytes := [0, 0, 0, 0, 1, 0]
 
 def field32 (b : Bytes) (pos : Nat) : Nat := decU32 (b.drop pos)
